@@ -136,36 +136,66 @@ func (r *Run) write(dir string) error {
 	for _, f := range old {
 		os.Remove(f)
 	}
-	// shards of at most shardSize cases, each evaluated by one coqc process
-	shardSize := (len(r.Cases) + 15) / 16
-	if shardSize > 400 {
-		shardSize = 400
+	// chunks of at most 40 cases and about 300 KB of terms (one Definition each); the chunks
+	// are spread over the shards (one coqc process each) so that the shards carry about the
+	// same number of bytes: the slowest shard decides how long the evaluation takes
+	type chunkT struct {
+		text string
 	}
-	if shardSize < chunk {
-		shardSize = chunk
+	var chunks []chunkT
+	for c := 0; c < len(r.Cases); {
+		var sb strings.Builder
+		fmt.Fprintf(&sb, "Definition bad_%d := Eval vm_compute in bad_ids [\n", c)
+		size, first := 0, c
+		for c < len(r.Cases) && c-first < chunk && (size < 300000 || c == first) {
+			if c > first {
+				sb.WriteString(";\n")
+			}
+			fmt.Fprintf(&sb, " (%d, %s)", r.Cases[c].ID, r.Cases[c].Coq)
+			size += len(r.Cases[c].Coq)
+			c++
+		}
+		fmt.Fprintf(&sb, "\n].\nPrint bad_%d.\n", first)
+		chunks = append(chunks, chunkT{sb.String()})
 	}
-	shardSize = (shardSize + chunk - 1) / chunk * chunk
-	nshards := 0
-	for start := 0; start < len(r.Cases); start += shardSize {
-		end := min(start+shardSize, len(r.Cases))
+	total := 0
+	for _, ch := range chunks {
+		total += len(ch.text)
+	}
+	nshards := 16
+	if n := total/1500000 + 1; n > nshards {
+		nshards = min(n, 64)
+	}
+	if len(chunks) < nshards {
+		nshards = max(len(chunks), 1)
+	}
+	order := make([]int, len(chunks))
+	for i := range order {
+		order[i] = i
+	}
+	sort.SliceStable(order, func(a, b int) bool { return len(chunks[order[a]].text) > len(chunks[order[b]].text) })
+	load := make([]int, nshards)
+	parts := make([][]int, nshards)
+	for _, ci := range order {
+		best := 0
+		for k := range load {
+			if load[k] < load[best] {
+				best = k
+			}
+		}
+		load[best] += len(chunks[ci].text)
+		parts[best] = append(parts[best], ci)
+	}
+	for k := 0; k < nshards; k++ {
+		sort.Ints(parts[k])
 		var sb strings.Builder
 		fmt.Fprintf(&sb, "Require Import %s.\nOpen Scope Z_scope.\n", r.Module)
-		for c := start; c < end; c += chunk {
-			ce := min(c+chunk, end)
-			fmt.Fprintf(&sb, "Definition bad_%d := Eval vm_compute in bad_ids [\n", c)
-			for i := c; i < ce; i++ {
-				sep := ";"
-				if i == ce-1 {
-					sep = ""
-				}
-				fmt.Fprintf(&sb, " (%d, %s)%s\n", r.Cases[i].ID, r.Cases[i].Coq, sep)
-			}
-			fmt.Fprintf(&sb, "].\nPrint bad_%d.\n", c)
+		for _, ci := range parts[k] {
+			sb.WriteString(chunks[ci].text)
 		}
-		if err := os.WriteFile(filepath.Join(dir, fmt.Sprintf("cases_%d.v", nshards)), []byte(sb.String()), 0o644); err != nil {
+		if err := os.WriteFile(filepath.Join(dir, fmt.Sprintf("cases_%d.v", k)), []byte(sb.String()), 0o644); err != nil {
 			return err
 		}
-		nshards++
 	}
 	keys := map[string]bool{}
 	for _, c := range r.Cases {
